@@ -101,7 +101,7 @@ class G:
             if not idx: kinds += ['div']
         kind = self.choice(kinds)
         if kind == 'grad':
-            return dict(t='call', f='∇', gen=[idx[-1]], e=self.expr(idx[:-1], depth - 1))
+            return dict(t='call', f='sg' if self.fields == 'boundary' and self.boolean(.7) else '∇', gen=[idx[-1]], e=self.expr(idx[:-1], depth - 1))
         if kind == 'div':
             c = next((x for x in LETTERS if x not in self.used and LEN[x] == 2), None)
             if c is not None:
@@ -138,33 +138,36 @@ def valid_cases(draw, tier):
     return dict(tree=tree, vars=g.vars, free=free, ws=draw(st.integers(0, 7)), assign_order=list(draw(st.permutations(free))))
 
 
-def render(n, ws=0):
+def render(n, ws=0, v1=False):
     sp = ' ' if not ws & 1 else '  '
     t = n['t']
+    if v1 and t == 'call' and n['f'] in ('∇', 'sg'):
+        # version 1 spells the (surface) gradient of a compound expression with a trailing index: (expr)_,k and (expr)_;k
+        return '(' + render(n['e'], ws, v1) + ')_' + (',' if n['f'] == '∇' else ';') + ''.join(n['gen'])
     if t == 'var':
         return n['name'] + ('_' + ''.join(n['idx']) if n['idx'] else '')
     if t == 'term':
-        parts = ([n['num']] if n['num'] else []) + [render(i, ws) for i in n['items']]
+        parts = ([n['num']] if n['num'] else []) + [render(i, ws, v1) for i in n['items']]
         return sp.join(parts)
     if t == 'frac':
-        return render(n['n'], ws) + ' / ' + render(n['d'], ws)
+        return render(n['n'], ws, v1) + ' / ' + render(n['d'], ws, v1)
     if t == 'expr':
         s = ''
         for k, (sign, term) in enumerate(n['terms']):
             if k == 0:
-                s += ('-' if n['neg'] else '') + render(term, ws)
+                s += ('-' if n['neg'] else '') + render(term, ws, v1)
             else:
-                s += ' ' + sign + ' ' + render(term, ws)
+                s += ' ' + sign + ' ' + render(term, ws, v1)
         return s
     if t == 'scope':
         close = {'(': ')', '{': '}', '[': ']'}[n['kind']]
         pad = ' ' if ws & 2 else ''
-        return n['kind'] + pad + render(n['e'], ws) + pad + close
+        return n['kind'] + pad + render(n['e'], ws, v1) + pad + close
     if t == 'call':
-        return n['f'] + ('_' + ''.join(n['gen']) if n['gen'] else '') + '(' + render(n['e'], ws) + ')'
+        return n['f'] + ('_' + ''.join(n['gen']) if n['gen'] else '') + '(' + render(n['e'], ws, v1) + ')'
     if t == 'pow':
-        e = n['exp'] if isinstance(n['exp'], str) else render(n['exp'], ws)
-        return render(n['base'], ws) + '^' + e
+        e = n['exp'] if isinstance(n['exp'], str) else render(n['exp'], ws, v1)
+        return render(n['base'], ws, v1) + '^' + e
     raise NotImplementedError(t)
 
 
@@ -209,7 +212,7 @@ def evaluate(n, vars, ctx=None):
                 if x.isdigit(): a = numpy.take(a, int(x), axis=ax)
                 else: idx.append(x); ax += 1
             return trace_dups(a, idx)
-        if t == 'call' and n['f'] == '∇':
+        if t == 'call' and n['f'] in ('∇', 'sg'):
             def fd(h):
                 comps = []
                 for k in range(2):
@@ -223,6 +226,8 @@ def evaluate(n, vars, ctx=None):
             g1, ai = fd(1e-2); g2, _ = fd(5e-3)
             g2 = numpy.where(abs(g2) < 1e-9, 0., g2)     # the gradient of something that does not depend on x is exactly zero, not rounding noise (matters under sqrt/abs)
             ctx['fderr'].append(float(abs(g1 - g2).max() / (1 + abs(g1).max())) if g1.size else 0.)
+            if n['f'] == 'sg':      # surface gradient: the part of the gradient tangential to the boundary
+                g2 = g2 - (g2 @ ctx['n'])[..., None] * ctx['n']
             return trace_dups(g2, ai + list(n['gen']))
         if t == 'scope' and n['kind'] in '[{':
             a, ai = evaluate(n['e'], vars, ctx)
@@ -269,6 +274,8 @@ def _evaluate_composite(n, vars, ctx):
         return ev(n['e'])     # mean of a constant is the constant
     if t == 'call':
         a, ai = ev(n['e'])
+        if n['f'] in ('sin', 'cos') and a.size and abs(a).max() > 1e5:
+            raise Discard('ill-conditioned-trigonometric-argument')      # sin(1e27) is rounding noise in any implementation
         return trace_dups(FUNCS[n['f']](a), ai + list(n['gen']))
     if t == 'pow':
         a, ai = ev(n['base'])
@@ -726,7 +733,7 @@ def check_v1(case, rec):
 
 @st.composite
 def field_cases(draw, tier):
-    mode = draw(st.sampled_from(['interior', 'boundary', 'interfaces', 'interfaces']))
+    mode = draw(st.sampled_from(['interior', 'boundary', 'boundary', 'interfaces', 'interfaces']))
     g = G(draw, 2 if tier == 'quick' else 3, fields=mode)
     nfree = draw(st.sampled_from([0, 0, 1, 1, 2]))
     free = [g.fresh() for _ in range(nfree)]
@@ -759,6 +766,7 @@ def check_fields(case, rec):
         ns.ga = numpy.stack([x[0] * x[1], x[0] - x[1] ** 2]); ns.gb = numpy.stack([1 + x[1], x[0] ** 2])
         ns.ma = numpy.stack([numpy.stack([x[0], x[1]]), numpy.stack([x[0] * x[1], function.ones(())])])
         ns.ha = M['ha']
+        ns.sg = lambda u: function.surfgrad(u, x)
         smp = topo.sample('gauss', 1) if mode == 'interior' else topo.boundary.sample('gauss', 1) if mode == 'boundary' else topo.interfaces.sample('gauss', 1)
         try:
             arr = s @ ns
@@ -788,13 +796,35 @@ def check_fields(case, rec):
             want = numpy.transpose(want, [idx.index(i) for i in order]) if idx else want
             if got[p].shape != want.shape or not numpy.allclose(got[p], want, rtol=1e-6, atol=1e-7 * (1 + (abs(want).max() if want.size else 0))):
                 raise Violation('wrong-value', f'{s!r} @ ns on the {mode} sample, point {p} x={X[p].tolist()}: {got[p].tolist()} != reading {want.tolist()} (indices {order})', where='value:fields:' + mode)
+        # the same tree in version 1 spelling (gradients as trailing ,k / ;k), where every construct exists there
+        if not any(n['t'] == 'call' and n['gen'] and n['f'] not in ('∇', 'sg') for n in _walk(tree)):
+            from nutils import expression_v1
+            s1 = render(tree, case['ws'], v1=True)
+            ns1 = namespace_v1(case['vars'])
+            ns1.x = x
+            ns1.fa = ns.fa; ns1.fb = ns.fb; ns1.ga = ns.ga; ns1.gb = ns.gb; ns1.ma = ns.ma; ns1.ha = M['ha']
+            ns1.dV = function.J(x); ns1.dS = function.J(x, 1)
+            order1 = ''.join(sorted(_free_idx(tree)))
+            try:
+                arr1 = getattr(ns1, 'eval_' + order1)(s1)
+                got1 = numpy.asarray(smp.eval(arr1))
+            except expression_v1.ExpressionSyntaxError as e:
+                raise Violation('valid-rejected', f'v1 eval_{order1}({s1!r}): {str(e).splitlines()[0]}', where='fields-v1-rejected:' + str(e).split('.')[0][:40])
+            except Exception as e:
+                raise Violation('valid-raised', f'v1 eval_{order1}({s1!r}) on the {mode} sample: {type(e).__name__}: {str(e)[:200]}', where='fields-v1-raised:' + type(e).__name__)
+            if got1.shape != got.shape or not numpy.allclose(got1, got, rtol=1e-9, atol=1e-10 * (1 + (abs(got).max() if got.size else 0))):
+                # version 2 agreed with the reading above, so a difference is version 1's
+                bad = numpy.argwhere(~numpy.isclose(got1, got, rtol=1e-9, atol=1e-10 * (1 + abs(got).max())))[0] if got1.shape == got.shape else None
+                raise Violation('wrong-value', f'v1 eval_{order1}({s1!r}) on the {mode} sample differs from the reading (and from version 2): shapes {got1.shape} / {got.shape}' + ('' if bad is None else f', point {bad[0]}: {got1[tuple(bad)]} vs {got[tuple(bad)]}'), where='value:fields-v1:' + mode)
+            rec.label('fields-v1')
     kinds = _kinds(tree)
     names = {n['name'] for n in _walk(tree) if n['t'] == 'var'}
-    grads = sum(1 for n in _walk(tree) if n['t'] == 'call' and n['f'] == '∇')
+    grads = sum(1 for n in _walk(tree) if n['t'] == 'call' and n['f'] in ('∇', 'sg'))
     rec.nontrivial = bool(grads or kinds & {'scope:[', 'scope:{'} or names & {'n', 'dV', 'dS'})
     rec.key = hashlib.sha1((mode + s).encode()).hexdigest()[:16]
     rec.label('mode:' + mode, 'gradients:%d' % min(grads, 3), *('field:' + n for n in names & {'fa', 'fb', 'ga', 'gb', 'ma', 'ha', 'n', 'dV', 'dS'}), *('fields-node:' + k for k in kinds if k.startswith('scope')))
-    if any(n['t'] == 'call' and n['f'] == '∇' and n['gen'][0] in _letters(n['e']) for n in _walk(tree)): rec.label('divergence')
+    if any(n['t'] == 'call' and n['f'] in ('∇', 'sg') and n['gen'][0] in _letters(n['e']) for n in _walk(tree)): rec.label('divergence')
+    if any(n['t'] == 'call' and n['f'] == 'sg' for n in _walk(tree)): rec.label('surface-gradient')
     if any(n['t'] == 'scope' and n['kind'] in '[{' and 'ha' in {m['name'] for m in _walk(n) if m['t'] == 'var'} for n in _walk(tree)): rec.label('jump-or-mean-of-discontinuous')
 
 
@@ -850,6 +880,11 @@ def check_edit(case, rec):
             out1 = 'accepted'
         except expression_v1.ExpressionSyntaxError:
             out1 = 'rejected'
+        except TypeError as e:
+            if '<lambda>' in str(e):      # the edit changed the number of arguments passed to the harness' own function `sqr`: the TypeError is that function's
+                rec.label('edit:harness-function-arity'); out1 = 'rejected'
+            else:
+                raise Violation('wrong-exception', f'v1 eval_{free}({s!r}) ({case["kind"]} edit of a valid string) raised {type(e).__name__}: {str(e)[:200]}', where='edit-v1:' + type(e).__name__)
         except Exception as e:
             raise Violation('wrong-exception', f'v1 eval_{free}({s!r}) ({case["kind"]} edit of a valid string) raised {type(e).__name__}: {str(e)[:200]}', where='edit-v1:' + type(e).__name__)
     rec.label('edit:' + case['kind'], 'v2:' + out2, 'v1:' + out1)
